@@ -11,6 +11,8 @@ mod exec;
 mod props;
 mod rng;
 mod scen;
+mod scen_foreign;
+mod scen_hist;
 mod scen_life;
 mod spec;
 mod sut;
